@@ -670,6 +670,17 @@ class Interp:
                     if isinstance(op, ast.NotIn):
                         r = B.NOT(r)
                     right = None
+                elif isinstance(op, (ast.In, ast.NotIn)):
+                    right = self._eval(rnode, st)
+                    tp = right.single()
+                    if not isinstance(tp, Tup):
+                        raise Unsupported('membership test in a non-tuple value')
+                    r = 0
+                    for el in tp.items:
+                        r = B.OR(r, self.compare(ast.Eq(), left, el, st.cond))
+                    if isinstance(op, ast.NotIn):
+                        r = B.NOT(r)
+                    right = None
                 else:
                     right = self._eval(rnode, st)
                     r = self.compare(op, left, right, st.cond)
@@ -846,7 +857,8 @@ class Interp:
                 rr = self.repo.resolve_name(m, node.func.id)
                 if rr and rr[0] == 'class':
                     return V(('obj', 'module:%s' % ast.unparse(node.func), rr[1].name))
-            if isinstance(node, ast.Dict):
+            if isinstance(node, (ast.Dict, ast.Tuple, ast.List)):
+                # immutable module-level table (dict / tuple of literals, enum members or classes): evaluated in its module
                 saved = self.cur_func
                 try:
                     self.cur_func = _ModuleCtx(m)
